@@ -24,8 +24,18 @@ i.e. at most 17u*(A(X) + X*A'(X)) ~ 1.9e-15*(...).  The slack used is 1e-13*(A(X
 implementation cannot trip it; it is still ~1e-13 relative to the size of the terms, far below any genuine residual.
 An absolute floor 2^-1070*(1 + sum|c| + A'(X)) accounts for f64 underflow (every power and product may be off by 2^-1074
 in absolute terms): near a multiple root at 0 the code's g(x) underflows to 0 and it stops with x ~ 1e-162.
+Exponents above 64 - up to the grammar's limit MAX_POWER = 65536 and beyond for hand-built polynomials - are judged by
+the same clause 2 in outward-rounded interval arithmetic (`Dy`: 320-bit dyadic bounds; x^65536 is never expanded).  There
+the per-term rounding allowance grows with the exponent: square-and-multiply `powi` (and `powf`) err by at most 2k u
+relative on x^k, so |e_g| <= sum (2k + n) u |c_k| |xo|^k and |D||e_d| <= tau sum (2k + n) u k |c_k| |xo|^k; the allowance
+is  sum_k [ f(k) + k (1 + tau f(k)/1e-13) 1e-13 ] |c_k| X^k  with f(k) = 1e-13 max(1, k/16)  (>= 25 x the derived bound at
+every k; for k <= 16 it is the allowance above).  A derivative whose power rule loses the top exponent (a u16 / i16 / u8
+conversion of 65536, 32768, 256) turns Newton into a first-order iteration: the residual is then ~ |g'| tol% |x|, ten to
+a million times the second-order bound, and is reported here with the returned x.
 For clause 3 a relative coefficient perturbation u moves a simple root r by u*A(r)/|g'(r)|; slack = 1e-12*A(r)/|g'(r)| +
-1e-13*|x| + the width of the exact isolating interval of r (<= 2^-64 |r|).
+1e-13*|x| + the width of the exact isolating interval of r (<= 2^-64 |r|) + 2^-1070/|g'(r)| (where |g| is below a few units
+of 2^-1074 the code's g is 0: the statement's own g(x) has left the range of binary64 there).  The must-return half
+abstains where gradual underflow has taken the relative precision the tolerance asks for (tol/100 * A(r) < 2^-1046).
 """
 import math, os, importlib.util
 from fractions import Fraction as Fr
@@ -34,7 +44,7 @@ _spec = importlib.util.spec_from_file_location("prop_c06_shared", os.path.join(o
 c06 = importlib.util.module_from_spec(_spec)
 _spec.loader.exec_module(c06)
 
-RULE = ("(hardening: every returned value is re-derived in the harness through the public API [finite; one more Newton step from it obeys the second-order bound]; the real line rescaled to every decade 1e-20..1e20 and binade 2^-70..2^60, ill-scaled polynomials with every root at its own scale, degrees 8..24, signed-zero / subnormal / 1e300 starting points, caps next to the integer limits, other variable names) requests: real-rooted polynomials with separated roots (degree 1..6, a root at 0, the real line scaled by 2^-20..2^20) "
+RULE = ("(round 3: the edge of the grammar - top exponents 65536 = MAX_POWER [36 per run], 65535, 65537, 65534, 2^15 +-1, 2^8 +-1, 2^7 +-1, 2^17, 100000, 70000, 4096, 1000 in  a x^n + b x - c  with the top term alive in the slope at the root [n a r^(n-1) / b in 0.02..30], dense and sparse form, both modes, both signs of the root, judged by the second-order residual bound in 320-bit interval arithmetic; the edge of the number range - amplitudes 2^-1000..2^-1060 [subnormal slopes] and 2^960..2^1005, the real line rescaled by 2^+-(100..330)) (hardening: every returned value is re-derived in the harness through the public API [finite; one more Newton step from it obeys the second-order bound]; the real line rescaled to every decade 1e-20..1e20 and binade 2^-70..2^60, ill-scaled polynomials with every root at its own scale, degrees 8..24, signed-zero / subnormal / 1e300 starting points, caps next to the integer limits, other variable names) requests: real-rooted polynomials with separated roots (degree 1..6, a root at 0, the real line scaled by 2^-20..2^20) "
         "started outside the root interval with ample budget; polynomials from arbitrary roots (degree 0..7, double roots, complex "
         "pairs) from any start with tolerances 1e-12..1e3 and <= 0, caps 0..5000; iterates that land exactly on 0, zero derivatives, "
         "cycles, constants; arbitrary polynomials of both kinds; both modes; non-trivial = the model returns a value (`ok`); "
@@ -199,10 +209,117 @@ def to_list(cs):
     return trim([cs.get(k, Fr(0)) for k in range(n + 1)])
 
 
+# ---------------------------------------------------------------- outward-rounded dyadic bounds for huge exponents
+
+PREC = 320
+FLOOR_EXP = -40000      # below 2^-40000 an upper bound is 2^-40000 and a lower bound is 0
+MAXPOW = 1 << 20        # exponents the oracle evaluates (the grammar stops at 65536; hand-built polynomials go beyond)
+
+
+def _norm(m, e, up):
+    """m * 2^e (m >= 0) cut to PREC bits, rounded up or down"""
+    if m == 0:
+        return (0, 0)
+    bl = m.bit_length()
+    if bl > PREC:
+        sh = bl - PREC
+        q = m >> sh
+        if up and (q << sh) != m:
+            q += 1
+        m, e = q, e + sh
+    if e + m.bit_length() < FLOOR_EXP:
+        return (1, FLOOR_EXP) if up else (0, 0)
+    return (m, e)
+
+
+def dy_of(q, up):
+    """bound of the non-negative rational q"""
+    if q == 0:
+        return (0, 0)
+    n, d = q.numerator, q.denominator
+    if d & (d - 1) == 0:
+        return _norm(n, -(d.bit_length() - 1), up)
+    sh = PREC + 8 + max(0, d.bit_length() - n.bit_length())
+    m = (n << sh) // d
+    if up:
+        m += 1
+    return _norm(m, -sh, up)
+
+
+def dy_mul(a, b, up):
+    return _norm(a[0] * b[0], a[1] + b[1], up)
+
+
+def dy_pow(a, k, up):
+    """bound of a^k (a a bound of the same direction of a non-negative number)"""
+    r = (1, 0)
+    base = a
+    while k:
+        if k & 1:
+            r = dy_mul(r, base, up)
+        k >>= 1
+        if k:
+            base = dy_mul(base, base, up)
+    return r
+
+
+def dy_fr(a):
+    m, e = a
+    return Fr(m * (1 << e)) if e >= 0 else Fr(m, 1 << (-e))
+
+
+def pow_lo_hi(ax, k):
+    """(lower, upper) Fractions around ax^k for the non-negative rational ax"""
+    return dy_fr(dy_pow(dy_of(ax, False), k, False)), dy_fr(dy_pow(dy_of(ax, True), k, True))
+
+
+def high_degree_check(r, x, tol):
+    """clause 2 for polynomials with exponents above 64, in interval arithmetic; returns a message or None"""
+    xq, tq = Fr(x), Fr(tol)
+    ax = abs(xq)
+    tau = tq / 100
+    step = tau * ax
+    Xq = ax * (1 + tau)
+    # |g(x)| from below
+    glo = ghi = Fr(0)
+    for k, c in r.g.items():
+        if c == 0:
+            continue
+        plo, phi = pow_lo_hi(ax, k)
+        if xq < 0 and k % 2 == 1:
+            plo, phi = -phi, -plo
+        a, b = c * plo, c * phi
+        glo += min(a, b)
+        ghi += max(a, b)
+    res_lo = glo if glo > 0 else (-ghi if ghi < 0 else Fr(0))
+    # M, the allowance and the floor from above, term by term at X = |x| (1 + tau)
+    Xup = dy_of(Xq, True)
+    tau_f = tau if tau < 10 ** 6 else Fr(10 ** 6)
+    M = Fr(0)
+    slack = Fr(0)
+    dsum = Fr(0)
+    for k, c in r.gabs.items():
+        if c == 0:
+            continue
+        f = Fr(max(16, k), 16) / 10 ** 13
+        xk = dy_fr(dy_pow(Xup, k, True))
+        slack += (f + k * (Fr(1, 10 ** 13) + tau_f * f)) * c * xk
+        if k >= 1:
+            dsum += k * c * dy_fr(dy_pow(Xup, k - 1, True))
+        if k >= 2:
+            M += k * (k - 1) * c * dy_fr(dy_pow(Xup, k - 2, True))
+    slack += Fr(1, 2 ** 1070) * (1 + sum(r.gabs.values(), Fr(0)) + dsum)
+    bound = M / 2 * step * step
+    if res_lo > bound + slack:
+        return (f"returned x = {x!r} has |g(x)| >= {c06.fl(res_lo):.6g} > (M/2)(tol/100*|x|)^2 = {c06.fl(bound):.6g} "
+                f"(+ slack {c06.fl(slack):.3g}); highest exponent {max(r.g)}")
+    return None
+
+
 # ---------------------------------------------------------------- request
 
 def parse_newton(req):
-    r = c06.parse(req)
+    r = c06.parse(req, MAXPOW)
     r.x0, r.tol = c06.fbits(r.rest[0]), c06.fbits(r.rest[1])
     r.itermax = int(r.rest[2])
     r.mode = r.rest[3]
@@ -214,9 +331,11 @@ def parse_newton(req):
 
 
 def monotone_setting(r):
-    """returns (n, extreme root interval (a, b), kappa_abs, kappa_rel) when g is real-rooted with simple separated
+    """returns (n, extreme root interval (a, b), kappa_abs, kappa_rel, |g'(r)|) when g is real-rooted with simple separated
     roots and x0 lies outside the root interval; else None"""
     if r.g is None or not math.isfinite(r.x0):
+        return None
+    if r.g and max(r.g) > 6:
         return None
     g = to_list(r.g)
     n = len(g) - 1
@@ -266,7 +385,7 @@ def monotone_setting(r):
     A = c06.absum(r.gabs, rmid)
     kabs = A / dg
     krel = kabs / abs(rmid) if rmid != 0 else Fr(0)
-    return n, ext, kabs, krel
+    return n, ext, kabs, krel, dg
 
 
 def oracle(req, impl):
@@ -280,7 +399,11 @@ def oracle(req, impl):
         x = c06.fbits(it[1][1:])
         if not math.isfinite(x):
             return "returned value is not finite"
-        if r.g is not None and math.isfinite(tol) and tol > 0:
+        if r.g is not None and math.isfinite(tol) and tol > 0 and r.g and max(r.g) > 64:
+            why = high_degree_check(r, x, tol)
+            if why:
+                return why
+        elif r.g is not None and math.isfinite(tol) and tol > 0:
             xq, tq = Fr(x), Fr(tol)
             X = abs(xq) * (1 + tq / 100)
             M = c06.d2bound(r.g, X)
@@ -300,7 +423,7 @@ def oracle(req, impl):
     ms = monotone_setting(r)
     if ms is None:
         return None
-    n, ext, kabs, krel = ms
+    n, ext, kabs, krel, dg = ms
     if krel > 10 ** 4:
         return None
     if it[0] == "ok":
@@ -309,6 +432,9 @@ def oracle(req, impl):
         xq = Fr(x)
         dist = max(abs(xq - ext[0]), abs(xq - ext[1]))
         allowed = n * Fr(tol) / 100 * abs(xq) + Fr(1, 10 ** 12) * kabs + Fr(1, 10 ** 13) * abs(xq) + (ext[1] - ext[0])
+        # the absolute floor of binary64: where |g| is below a few units of 2^-1074 the code's g is 0 and the point is a
+        # root to it (the statement's own g(x) has left the range there): a distance of 2^-1070 / |g'(r)| is granted
+        allowed += Fr(1, 2 ** 1070) / dg
         if dist > allowed:
             return (f"monotone case (all {n} roots real and separated, start outside): returned x = {x!r} is "
                     f"{c06.fl(dist):.6g} away from the extreme root {c06.fl(ext[0])!r}, allowed {c06.fl(allowed):.6g}")
@@ -319,6 +445,13 @@ def oracle(req, impl):
     # From a representable start the iterates move monotonically towards the root, so no later overflow is possible.
     x0q = Fr(r.x0)
     if c06.absum(r.gabs, x0q) > 10 ** 300 or c06.dbound(r.gabs, abs(x0q)) > 10 ** 300:
+        return None
+    # gradual underflow at the other end of the range: with terms of size T at the root the code knows g only to
+    # n 2^-1075 in absolute terms, so the relative step it can resolve is n 2^-1075 kappa / T (kappa = T / |r g'(r)| <=
+    # 1e4 = 2^13.3 here); the relative step test tol/100 is certain to be reachable when tol/100 * T >= 2^-1046 - that
+    # leaves a factor 2^12 - and then |g'| >= 2^-1063 / |r| still has its leading bits.  Below that the oracle abstains.
+    rq = (ext[0] + ext[1]) / 2
+    if c06.absum(r.gabs, rq if rq != 0 else x0q) * Fr(tol) / 100 < Fr(1, 2 ** 1046):
         return None
     return (f"monotone case (all {n} roots real and separated, start outside, budget >= 2000, 1e-9 <= tol < 100): "
             f"no value was returned: " + impl[:60])
